@@ -86,7 +86,7 @@ def worker(run, st_, k, chunk):
             st_.exclude("reference_rejects_or_length_differs(C01)")
             continue
         n1 = nf.parse(ref[1], 0, ref[0])
-        if n1 is None or nf.superfluous(n1):
+        if n1 is None or nf.superfluous(n1) or nf.repeated_prefix(b[:l]):
             st_.exclude("superfluous_prefix")
             continue
         if texts["intel"] is None or texts["att"] is None:
